@@ -504,6 +504,7 @@ def processLine (line : String) : String :=
   let reqAll := (parts.headD "").trimAscii.toString.splitOn " " |>.filter (· ≠ "")
   let rec cut : List String → List String
     | "@env" :: kv :: rest => if kv.contains '=' then [] else "@env" :: cut (kv :: rest)
+    | ["@release"] => []          -- executed by the harness built with the release profile
     | x :: rest => x :: cut rest
     | [] => []
   let req0 := cut reqAll
